@@ -49,6 +49,18 @@ func runR28(c *Ctx) {
 		decoded := false
 		pe := &pathExec{fn: fn, start: cLoad.Block()}
 		pe.stopAt = func(b *ssa.BasicBlock) bool { return b == loop.header }
+		pe.inline = func(callee *ssa.Function) bool {
+			// helpers of the escaper that receive the current byte (e.g. an extracted `append the escape of c`)
+			if callee.Pkg != fn.Pkg {
+				return false
+			}
+			for _, prm := range callee.Params {
+				if b, ok := prm.Type().Underlying().(*types.Basic); ok && b.Kind() == types.Uint8 {
+					return true
+				}
+			}
+			return false
+		}
 		pe.onInstr = func(pe *pathExec, in ssa.Instruction) {
 			if call, ok := in.(*ssa.Call); ok {
 				if o := calleeObj(call); o != nil && o.Pkg() != nil && o.Pkg().Path() == "unicode/utf8" {
